@@ -137,6 +137,8 @@ func runEffectsFront(r *hlib.Run, rnd *hlib.Rand) func(r *hlib.Run, sb *hlib.Std
 	for i, ms := range progs {
 		emitEff(r, ms, verdicts[i].v, verdicts[i].msg, &suspicious, seenS)
 	}
+	// unit-level tie of the flag model to the real ast.NewExpr
+	emitFlagOps(r, progs)
 	r.Extra("effects_suspicious_accepted", len(suspicious))
 	// C run of accepted programs in which a pure method contains a write construct
 	maxC := 6
